@@ -19,7 +19,7 @@ def make_cases(rng, n):
     for i in range(n):
         ip = rng.choice([RDF_TYPE, RDF_TYPE, RDF_TYPE, EX + 'inst'])
         g = gen.gen_graph(rng, inst_prop=ip) if rng.random() < 0.75 else gen.gen_schema_graph(rng, inst_prop=ip)
-        base_cfg = gen.gen_cfg(rng, g, inst_prop=ip, presentation=False)
+        base_cfg = gen.gen_cfg(rng, g, inst_prop=ip, presentation=False, allow_or=True)
         if rng.random() < 0.2:
             # shapes emptied and removed: the instantiation property is ignored, so a class survives only through other features
             base_cfg['ignore_ns'] = [RDF] if ip == RDF_TYPE else [EX]
